@@ -9,7 +9,10 @@ Metamorphic / differential oracle only (the hash formula is never re-implemented
     definitions, the closure at another absolute location: every untouched message keeps its digest;
 (c) every single edit of a message (rename, id, field rename, field type text, insertion, deletion, reordering of two
     fields, signal <-> message) changes its full digest; over all variants of one base closure the digest must be an
-    injective function of (name, id, ordered (field name, type text) list);
+    injective function of (name, id, ordered (field name, type text) list); a message written ``fields: OTHER`` has OTHER's
+    field list: a single field edit of OTHER (struct or message) must change the digest of every message that copies it;
+    the same text parsed with the other alignment options (validate_alignment / auto_pad: automatic padding fields are inserted
+    or not) has the same digests;
 (d) Python ``type_hash``, C ``HASH_<NAME>``, JavaScript ``RTMA.HASH.<NAME>``, MATLAB ``RTMA.hash.<name>`` all carry the
     first 8 hex digits of the parser's digest, for every message, signal and reserved id - also for identifiers of every
     length in {1, 2, 31, 32, 40, 45, 46, 47, 48, 63} (a covering closure is compiled in every run; the back ends pad names
@@ -25,6 +28,8 @@ Metamorphic / differential oracle only (the hash formula is never re-implemented
     (pyrtma.message_def) revisions of a message - classes with the same type_id and different type_hash, also classes using the
     id of a core message - in both orders and send instances of every revision, of classes registered nowhere and of classes
     whose id belongs to another class: the version is the type_hash of the instance's own class and send_message never raises.
+    send_signal(id) of a signal definition stamps the hash of the definition registered for the id at the time of the call,
+    also when another revision of the signal was registered (and sent) before in the same process.
 """
 from __future__ import annotations
 
@@ -43,6 +48,7 @@ from typing import List, Optional, Tuple
 from hypothesis import strategies as st
 
 from vlib import defgen as G
+from vlib import defgen_hist as H
 from vlib.common import HarnessError, Result, RunContext, Violation, conclude, derive_seed, hyp_run, run_shards
 
 RULE = ("Hypothesis draws a well-formed base closure (1-6 files, 1-3 directories, every graph shape, messages with native / alias / struct / "
@@ -50,8 +56,11 @@ RULE = ("Hypothesis draws a well-formed base closure (1-6 files, 1-3 directories
         "variants of it: 1-2 noise transformations (comments, blank lines, indentation, section order, null sections, key spacing, quoting, "
         "hex ids, id/fields key order, unrelated new definitions, import reordering / respelling / extra import edge), relocation of up to 3 "
         "messages into another existing file or a new file in another directory, and every applicable single edit (rename, id, field rename, "
-        "field type text, insertion, deletion, reordering, signal<->message) of up to 2 messages; base and variants are parsed by the real "
-        "parser (the base at two absolute locations). Oracle: untouched messages keep their full sha256 digest, edited ones change it, and "
+        "field type text, insertion, deletion, reordering, signal<->message) of up to 2 messages, the same text with validate_alignment switched "
+        "(automatic padding inserted on one side only), and up to 2 single field edits (insert, delete, retype, swap, rename) of a struct / message whose "
+        "field list other messages copy with 'fields: NAME'; base and variants are parsed by the real "
+        "parser (the base at two absolute locations). Oracle: untouched messages keep their full sha256 digest, edited ones change it - a message "
+        "that copies the field list of an edited definition counts as edited (its ordered field list changed) -, the alignment options change no digest, and "
         "over the family the digest is an injective function of (name, id, ordered (field name, type text) list) - type texts that differ "
         "only in white space are don't-cares. For a sample the closure is compiled to Python, C, JavaScript and MATLAB and the hash text of "
         "every message in every output must be the first 8 digits of the parser's digest; closures are parsed+compiled in two fresh "
@@ -59,17 +68,19 @@ RULE = ("Hypothesis draws a well-formed base closure (1-6 files, 1-3 directories
         "message class (both header layouts) and of generated classes imported in a fresh interpreter must put type_hash into the header's "
         "version field - also in drawn sequences of 3-10 sends on one client that mix core classes, hand-defined classes with explicit "
         "hashes, hand-written classes without type_hash and send_signal calls (plus a table: each hash-less class followed by every hashed "
-        "class and back). Non-trivial = an edit pair, a relocation across files, a send of a class with type_hash after a send of a class "
+        "class and back; every pair of revisions of a message id in both registration orders; every pair of revisions of a SIGNAL id: send_signal, "
+        "register the other revision, send_signal again, register the first again, send_signal). Non-trivial = an edit pair, a relocation across files, a send of a class with type_hash after a send of a class "
         "without one on the same client, or a send of a class whose type_id is registered (pyrtma.message_def) to another class; distinct = (edit kind, what changed, message shape) / "
         "(relocation: new file?, directory changed?, message shape) / (output language, core imported, kind of message).")
 ASSUME = [
-    "the digest of a message defined with 'fields: OTHER' identifies that reference text (it is the message's definition text); field edits are therefore applied to messages with an explicit field list only",
+    "a message defined with 'fields: OTHER' has the ordered field list of OTHER (that is what every output declares and what goes on the wire): an edit of OTHER's field list is an edit of the copying message's field list and must change its digest (finding key edit-not-detected/fields-of-copied-definition, recorded without stopping the campaign); the digest of such a message is otherwise only required to be a function of (name, id, OTHER, copied field list)",
+    "the alignment options are not among the elements the statement lets the hash depend on: the same definition text parsed with validate_alignment on (automatic padding fields inserted) and off must give the same digests; a closure one of the two settings rejects (size limit) is inconclusive",
     "type texts that differ only in white space ('int32[ N ]' vs 'int32[N]') are don't-cares: neither equality nor difference of the digest is asserted",
     "a collision of the 32-bit prefix between two different definitions (probability 2^-32 per pair) would be reported as a note, not as a violation; the full digest is what must differ",
     "hash texts are extracted from the outputs by regular expressions (no MATLAB exists here; C and JavaScript are not executed by this check); the MATLAB name is the sanitised name (leading '_' and digits stripped)",
     "the C header deliberately omits core definitions, so core messages are compared in the Python, JavaScript and MATLAB outputs only",
     "Client internals _sock and _connected are set directly to attach the client to a socketpair (documented private poke, as in Engine D)",
-    "send_signal(id) is covered for ids of signal definitions known to the process (a registered payload-free class): the header must carry that definition's hash as send_message of an instance does; for ids without a definition, or whose definition has a payload, and for classes without type_hash the version field is a don't-care",
+    "send_signal(id) is covered for ids of signal definitions known to the process (a registered payload-free class): the header must carry the hash of the definition registered for the id when send_signal is called (also after another revision was registered and sent before), as send_message of an instance does; for ids without a definition, or whose definition has a payload, and for classes without type_hash the version field is a don't-care",
     "messages originated by the manager process itself (ACKNOWLEDGE, FAILED_MESSAGE, CLIENT_INFO, ...) are not covered here: C13 is checked on the compiler and on the client API that applications send with",
     "the hand-written classes of the send sequences are built with MessageMeta on MessageData; they are registered with pyrtma.message_def only by explicit 'register' steps, and pyrtma.message._msg_defs is restored after every sequence",
     "near-miss definitions (a field named type_id, type_name, type_hash, type_source, type_def, type_size or hexdump) are expected to be rejected; a rejection is only counted, an acceptance subjects the definition set to (d) and (e)",
@@ -97,11 +108,19 @@ def sig_norm(d: G.Def):
 
 
 def message_sigs(p: G.Program):
-    """{name: (exact, norm)} for messages, signals and reserved ids of the user files."""
+    """{name: (exact, norm)} for messages, signals and reserved ids of the user files.  For a message written ``fields: OTHER``
+    the exact signature also carries the ordered (field name, type text) list it copies from OTHER (equal exact signatures
+    must have equal digests whatever is hashed); the norm signature is its written form (name, id, OTHER)."""
     out = {}
     for d in p.defs:
         if d.kind in ("message", "signal"):
-            out[d.name] = (sig_exact(d), sig_norm(d))
+            se = sig_exact(d)
+            if d.kind == "message" and d.reuse is not None:
+                try:
+                    se = se + (tuple((f.name, f.type_text) for f in p.user_fields(d.name)),)
+                except Exception:  # noqa
+                    pass
+            out[d.name] = (se, sig_norm(d))
         elif d.kind == "reserved":
             for i in d.reserved_ids():
                 n = f"_RESERVED_{i:06d}"
@@ -159,6 +178,18 @@ def build_case(ch: G.Chooser, core: Optional[bool] = None) -> MetaCase:
             q = G.edit(base, d.name, k, ch)
             if q is not None:
                 case.variants.append(("edit", q))
+    # the same text compiled with the other alignment options (the hash depends on name, id and field texts only)
+    q = base.clone()
+    q.options["validate_alignment"] = not base.validate_alignment
+    if q.options["validate_alignment"]:
+        q.options["auto_pad"] = True
+    q.edited = q.relocated = None
+    case.variants.append(("options", q))
+    # one field edit of a struct / message whose field list other messages copy with ``fields: NAME``
+    for _ in range(2):
+        q = H.edit_reused_fields(base, ch)
+        if q is not None:
+            case.variants.append(("reuse-edit", q))
     # relocation + noise combined, and an edit on top of a relocation
     if case.variants and ch.chance(0.3):
         op, q = ch.choice(case.variants)
@@ -224,7 +255,33 @@ def check_meta(case: MetaCase, res: Result = None):
                 res.count(f"inconclusive/variant-rejected/{op}/{outq.outcome}")
             continue
         sigq = message_sigs(q)
-        if op in ("noise", "relocate", "relocate+noise"):
+        if op == "options":
+            for n in sig0:
+                if n not in hq:
+                    raise Violation("message-missing/options", f"compiled with {q.options} message {n} is not registered any more", trace)
+                if hq[n] != h0[n]:
+                    raise Violation("hash-changed/options", f"the same definition text compiled with {base.options} and with {q.options} gives digests "
+                                    f"{h0[n][:12]}.. and {hq[n][:12]}.. for {n} ({sig0[n][0]})", trace)
+            if res is not None:
+                res.count("variants/options")
+                padded = _auto_padded(out0 if base.validate_alignment else outq)
+                if padded:
+                    res.count("options-variants/with-automatic-padding-on-one-side")
+                res.shape("options", bool(padded), tuple(sorted(base.options.items())), base.shape)
+        elif op == "reuse-edit":
+            e = q.edited
+            tname = e["old"]
+            if tname in hq and tname in h0 and sigq[tname][1] != sig0[tname][1] and hq[tname] == h0[tname]:
+                raise Violation("edit-not-detected/" + e["kind"], f"edit [{e['what']}] left the digest of {tname} at {h0[tname][:16]}..", trace)
+            _check_copies(sig0, sigq, h0, hq, e, trace, res)
+            for n, (se, sn) in sigq.items():
+                if n in sig0 and n != tname and sig0[n][0] == se and hq[n] != h0[n]:
+                    raise Violation("hash-changed/edit-of-another-definition/" + e["kind"], f"edit [{e['what']}] changed the digest of the untouched message {n}", trace)
+            if res is not None:
+                res.count("variants/reuse-edit")
+                res.count("reuse-edits/" + e["kind"].split("/")[1] + ("/of-struct" if base.by_name(tname).kind == "struct" else "/of-message"))
+                res.shape("reuse-edit", e["kind"], base.by_name(tname).kind, min(len(e["users"]), 3), base.import_coredefs)
+        elif op in ("noise", "relocate", "relocate+noise"):
             what = f"relocation {q.relocated}" if q.relocated else f"noise {q.noise}"
             if op == "relocate+noise":
                 what = f"relocation {q.relocated} and noise {q.noise}"
@@ -252,6 +309,7 @@ def check_meta(case: MetaCase, res: Result = None):
             if sigq[new][1] != sig0[old][1] and hq[new] == h0[old]:
                 raise Violation(f"edit-not-detected/{e['kind']}", f"edit [{e['kind']}: {e['what']}] of {old}: {sig0[old][0]} -> {sigq[new][0]} "
                                 f"left the digest at {h0[old][:16]}..", trace)
+            _check_copies(sig0, sigq, h0, hq, e, trace, res)
             for n, (se, sn) in sigq.items():
                 if n in sig0 and n != new and sig0[n][0] == se and hq[n] != h0[n]:
                     raise Violation(f"hash-changed/edit-of-another-message/{e['kind']}", f"edit [{e['kind']}: {e['what']}] of {old} changed the digest "
@@ -264,6 +322,37 @@ def check_meta(case: MetaCase, res: Result = None):
     if res is not None and len(res.samples) < 2 and case.variants:
         op, q = case.variants[-1]
         res.sample({"op": op, "edited": q.edited, "relocated": q.relocated, "base_files": base.files, "variant_files": q.files})
+
+
+def _auto_padded(outcome) -> List[str]:
+    """Messages / structs of a successful parse that carry compiler-inserted padding fields."""
+    try:
+        ps = outcome.parser
+        return [n for sec in (ps.message_defs, ps.struct_defs) for n, m in sec.items() if any(re.fullmatch(r"padding_\d+_", f.name) for f in m.fields)]
+    except Exception:  # noqa
+        return []
+
+
+COPY_KEY = "edit-not-detected/fields-of-copied-definition"
+
+
+def _check_copies(sig0, sigq, h0, hq, e, trace, res: Result = None):
+    """A message written ``fields: OTHER`` has OTHER's ordered field list.  When an edit of OTHER changes that list (the message's
+    name, id and the word OTHER stay), an element the statement names has changed, so the digest must change.  The finding is
+    recorded and the campaign goes on (one root cause, listed in KNOWN_FINDINGS.txt while it is open)."""
+    for n, (se, sn) in sigq.items():
+        if n not in sig0 or n not in hq or n not in h0:
+            continue
+        se0, sn0 = sig0[n]
+        if sn0 == sn and len(sn) > 2 and sn[2] == "reuse" and se0 != se:
+            if res is not None:
+                res.count("copied-field-lists-changed-by-an-edit")
+            if hq[n] == h0[n]:
+                what = (f"edit [{e['what']}] changes the ordered field list of {n} (written 'fields: {sn[3]}') from {list(se0[-1])[:4]} to {list(se[-1])[:4]}; "
+                        f"its digest stays {h0[n][:16]}..")
+                if res is None:
+                    raise Violation(COPY_KEY, what, trace)
+                res.add_finding(COPY_KEY, what, trace)
 
 
 def _edit_class(e):
@@ -539,9 +628,12 @@ HAND_HASHES = {"HAND_A": 0x8A51C3D4, "HAND_B": 0x0BADF00D, "HAND_MAX": 0xFFFFFFF
 V1_NAMES = ["V1_PAYLOAD", "V1_EMPTY"]
 # revisions of one message: same type_id, different type_hash (and layout), as after regenerating a definitions module;
 # SHADOW_* use the id of a shipped core message
-REVISIONS = {"REV_A": ["REV_A1", "REV_A2"], "REV_B": ["REV_B1", "REV_B2", "REV_B3"], "CONNECT": ["CONNECT", "SHADOW_CONNECT"],
+REVISIONS = {"REV_A": ["REV_A1", "REV_A2"], "REV_B": ["REV_B1", "REV_B2", "REV_B3", "REV_B4"], "CONNECT": ["CONNECT", "SHADOW_CONNECT"],
              "ACKNOWLEDGE": ["ACKNOWLEDGE", "SHADOW_ACK"]}
-REV_NAMES = ["REV_A1", "REV_A2", "REV_B1", "REV_B2", "REV_B3", "SHADOW_CONNECT", "SHADOW_ACK"]
+REV_NAMES = ["REV_A1", "REV_A2", "REV_B1", "REV_B2", "REV_B3", "REV_B4", "SHADOW_CONNECT", "SHADOW_ACK"]
+# revisions of a SIGNAL definition (payload-free classes sharing an id): send_signal(id) must stamp the hash of the definition
+# registered for the id at the time of the call
+SIGNAL_REVISIONS = [["REV_B3", "REV_B4"], ["ACKNOWLEDGE", "SHADOW_ACK"]]
 # send_signal(id): ids of shipped core signal definitions (EXIT, ACKNOWLEDGE, DISCONNECT, LM_EXIT, DATA_LOGGER_START), ids of
 # hand-defined classes (4005 HAND_EMPTY, 4202 REV_B*, 4201 REV_A*: a signal only when registered and payload-free) and ids
 # nobody defines (1234, 9999)
@@ -570,7 +662,7 @@ def class_pool():
         pool["V1_PAYLOAD"] = MessageMeta("MDF_V1_PAYLOAD", (MessageData,), {"type_id": 4101, "type_name": "V1_PAYLOAD", "type_size": 8, "val": Double()})
         pool["V1_EMPTY"] = MessageMeta("MDF_V1_EMPTY", (MessageData,), {"type_id": 4102, "type_name": "V1_EMPTY", "type_size": 0})
         revs = {"REV_A1": (4201, 0x11111111, 8), "REV_A2": (4201, 0x22222222, 8), "REV_B1": (4202, 0xB1B1B1B1, 8), "REV_B2": (4202, 0x0000B2B2, 16),
-                "REV_B3": (4202, 0xB3000000, 0), "SHADOW_CONNECT": (cd.MDF_CONNECT.type_id, 0x5AD0C011, 8), "SHADOW_ACK": (cd.MDF_ACKNOWLEDGE.type_id, 0x5AD00ACC, 0)}
+                "REV_B3": (4202, 0xB3000000, 0), "REV_B4": (4202, 0x00B4B4B4, 0), "SHADOW_CONNECT": (cd.MDF_CONNECT.type_id, 0x5AD0C011, 8), "SHADOW_ACK": (cd.MDF_ACKNOWLEDGE.type_id, 0x5AD00ACC, 0)}
         for n, (tid, h, size) in revs.items():
             ns = {"type_id": tid, "type_name": n, "type_hash": h, "type_size": size}
             if size >= 8:
@@ -631,13 +723,18 @@ def run_sequence(timecode: bool, ops: list, res: Result = None):
                     # payload: sending a bare header is the caller's mistake) are don't-cares.
                     th = getattr(holder, "type_hash", None) if holder is not None else None
                     if isinstance(th, int) and ctypes.sizeof(holder) == 0:
+                        rereg = sum(1 for o in ops[:k] if o[0] == "register" and pool[o[1]].type_id == int(arg))
+                        sent_before = any(o[0] == "signal" and int(o[1]) == int(arg) for o in ops[:k])
                         if f[11] != th:
-                            raise Violation("header-version-not-stamped/send_signal", f"step #{k + 1} (timecode header: {timecode}): send_signal({arg}) put "
+                            # own bucket (and a self-contained trace) for: the id was sent before and registered again since
+                            raise Violation("header-version-not-stamped/send_signal" + ("/after-the-id-was-registered-again" if rereg and sent_before else ""), f"step #{k + 1} (timecode header: {timecode}): send_signal({arg}) put "
                                             f"{f[11]:#010x} into the version field; id {arg} is the signal definition {holder.__name__} whose type_hash is "
                                             f"{th:#010x} (send_message({holder.__name__}()) stamps it); before: {[f'{o[0]} {o[1]}' for o in ops[:k]]}", trace)
                         if res is not None:
                             res.count("headers-checked/send_signal-of-defined-signal")
-                            res.shape("send_signal", timecode, "core" if int(arg) < 100 else "hand", min(k, 4))
+                            if rereg and sent_before:
+                                res.count("headers-checked/send_signal-after-its-id-was-registered-again")
+                            res.shape("send_signal", timecode, "core" if int(arg) < 100 else "hand", min(k, 4), min(rereg, 2), sent_before)
                     continue
                 cls = pool[arg]
                 if kind == "register":
@@ -689,6 +786,9 @@ def st_sequences():
         st.tuples(st.just("signal"), st.sampled_from(SIGNAL_IDS)),
         st.tuples(st.just("register"), st.sampled_from(REGISTER_NAMES)),
         st.tuples(st.just("send"), st.sampled_from(REV_NAMES + ["CONNECT", "ACKNOWLEDGE"])),  # classes that share an id
+        # re-registration of a signal id between two send_signal calls of it
+        st.tuples(st.just("register"), st.sampled_from([n for g in SIGNAL_REVISIONS for n in g])),
+        st.tuples(st.just("signal"), st.sampled_from([2, 4202])),
     )
     return st.tuples(st.booleans(), st.lists(op, min_size=3, max_size=10))
 
@@ -719,6 +819,20 @@ def sequence_table(res: Result):
                                 [["register", x], ["send", x], ["register", y], ["send", x], ["send", y], ["send", "HAND_ONE"]],
                                 [["send", x], ["send", y], ["register", y], ["send", x]]):
                         res.evaluations += 1
+                        _collect(timecode, ops, res)
+        # a signal id whose definition is replaced between two send_signal calls (and back): every header carries the hash of
+        # the definition registered at that moment, also after send_message of either revision
+        pool = class_pool()
+        for group in SIGNAL_REVISIONS:
+            for x in group:
+                for y in group:
+                    if x == y:
+                        continue
+                    sid = pool[x].type_id
+                    for ops in ([["register", x], ["signal", sid], ["register", y], ["signal", sid], ["send", y], ["register", x], ["signal", sid]],
+                                [["register", x], ["send", x], ["signal", sid], ["send", "HAND_A"], ["register", y], ["signal", sid], ["signal", sid]]):
+                        res.evaluations += 1
+                        res.count("signal-revision-sequences")
                         _collect(timecode, ops, res)
 
 
